@@ -108,7 +108,83 @@ func metricsProgs(byPath map[string]*packages.Package, out *Out) {
 				out.MetricsFields[short] = append(out.MetricsFields[short], st.Field(i).Name())
 			}
 		}
+		if out.MetricsPublic == nil {
+			out.MetricsPublic = map[string]map[string]string{}
+		}
+		out.MetricsPublic[short] = publicNames(p, gobj)
 	}
+}
+
+// publicNames: field of the metrics struct -> field of the public snapshot it is reported in, read off the
+// snapshot functions (GetStats / GetMetrics): `v := atomic.LoadInt64(&globalMetrics.F)` ... `Stats{K: v}`,
+// `Snapshot{K: atomic.LoadInt64(&globalMetrics.F)}`, `Snapshot{K: globalMetrics.F}`, and a `range globalMetrics.F`
+// that fills `snapshot.K[...]`.
+func publicNames(p *packages.Package, gobj types.Object) map[string]string {
+	res := map[string]string{}
+	t := &mtr{p: p, gvar: gobj}
+	for _, f := range p.Syntax {
+		for _, d := range f.Decls {
+			fd, ok := d.(*ast.FuncDecl)
+			if !ok || fd.Recv != nil || fd.Body == nil || (fd.Name.Name != "GetStats" && fd.Name.Name != "GetMetrics") {
+				continue
+			}
+			local := map[types.Object]string{}
+			fieldOfValue := func(e ast.Expr) (string, bool) {
+				e = ast.Unparen(e)
+				if id, ok := e.(*ast.Ident); ok {
+					f, ok := local[p.TypesInfo.Uses[id]]
+					return f, ok
+				}
+				if op, f, _, ok := t.atomicCall(e); ok && op == "load" {
+					return f, true
+				}
+				if _, isSel := e.(*ast.SelectorExpr); isSel {
+					return t.fieldOf(e)
+				}
+				return "", false
+			}
+			ast.Inspect(fd.Body, func(n ast.Node) bool {
+				switch x := n.(type) {
+				case *ast.AssignStmt:
+					if len(x.Lhs) == 1 && len(x.Rhs) == 1 {
+						if id, ok := x.Lhs[0].(*ast.Ident); ok && x.Tok == token.DEFINE {
+							if f, ok := fieldOfValue(x.Rhs[0]); ok {
+								local[p.TypesInfo.Defs[id]] = f
+							}
+						}
+					}
+				case *ast.CompositeLit:
+					for _, el := range x.Elts {
+						if kv, ok := el.(*ast.KeyValueExpr); ok {
+							if k, ok := kv.Key.(*ast.Ident); ok {
+								if f, ok := fieldOfValue(kv.Value); ok {
+									if _, dup := res[f]; !dup {
+										res[f] = k.Name
+									}
+								}
+							}
+						}
+					}
+				case *ast.RangeStmt:
+					if f, ok := t.fieldOf(x.X); ok {
+						// for k, v := range globalMetrics.F { snapshot.K[k] = v }
+						ast.Inspect(x.Body, func(m ast.Node) bool {
+							if as, ok := m.(*ast.AssignStmt); ok && len(as.Lhs) == 1 {
+								if ix, ok := as.Lhs[0].(*ast.IndexExpr); ok {
+									if sel, ok := ix.X.(*ast.SelectorExpr); ok {
+										res[f] = sel.Sel.Name
+									}
+								}
+							}
+							return true
+						})
+					}
+				}
+				return true
+			})
+		}
+	}
+	return res
 }
 
 func translateRecord(p *packages.Package, short string, gobj types.Object, fd *ast.FuncDecl) *MProg {
@@ -669,10 +745,10 @@ type rmwc struct {
 	bad    bool
 }
 
-func (c *rmwc) emit(j J)          { c.ins = append(c.ins, j) }
-func (c *rmwc) newLabel() int     { c.nlab++; return c.nlab }
-func (c *rmwc) place(l int)       { c.labels[l] = len(c.ins) }
-func (c *rmwc) newReg() int       { r := c.t.nregs; c.t.nregs++; return r }
+func (c *rmwc) emit(j J)      { c.ins = append(c.ins, j) }
+func (c *rmwc) newLabel() int { c.nlab++; return c.nlab }
+func (c *rmwc) place(l int)   { c.labels[l] = len(c.ins) }
+func (c *rmwc) newReg() int   { r := c.t.nregs; c.t.nregs++; return r }
 func (c *rmwc) regOf(id *ast.Ident) int {
 	obj := c.t.p.TypesInfo.Defs[id]
 	if obj == nil {
